@@ -229,14 +229,20 @@ def gen_call(r, m, X, sh, dclass):
     d = r.range(1, min(3, D))
     if m == "hlle":
         d = min(d, 2)
+    if m in LOCAL_EIG:
+        # d = D makes every local tangent space the whole feature space: the alignment matrix annihilates the data and
+        # what reaches the eigensolver is the rounding residue of a cancellation (ill-conditioned by construction)
+        d = max(1, min(d, D - 1))
     c["d"] = d
     if m in KNN:
         c["nm"] = r.choice(NMS)
         lo = 3
-        if m == "hlle" and d == 2:
-            lo = 6
+        # one more neighbour than the local basis has columns: with equality the local projector is the identity and
+        # the alignment matrix is the rounding residue of I - I (ill-conditioned by construction)
+        if m == "hlle":
+            lo = 2 + d + d * (d + 1) // 2
         if m in ("kltsa", "lltsa"):
-            lo = max(lo, d + 1)
+            lo = max(lo, d + 2)
         c["k"] = min(n - 1, r.range(lo, max(lo, 8)))
         c["conn"] = 1 if (dclass == "clusters" or r.chance(3, 4)) else 0
     if m in GAUSS:
@@ -650,6 +656,7 @@ def g_random(r, n, k):
 def g_outlier(r, n, k):
     """a strongly connected core plus one vertex that lists core vertices and is listed by nobody"""
     core = list(range(1, n))
+    k = max(1, min(k, n - 2))          # uniform list length (is_connected reads neighbors[0].size() entries of every list)
     g = [r.shuffle(core)[:k]]
     for u in core:
         others = [w for w in core if w != u]
@@ -883,7 +890,7 @@ def correspond(ctx):
     ctx.log("stage / exact-mode model checks done")
 
     # 3. metamorphic pairs
-    rounds = 6 if quick else 60
+    rounds = 12 if quick else 150
     sizes = [8, 16, 16, 32] if quick else [8, 12, 16, 20, 32, 32, 48]
     for rnd in range(rounds):
         pairs = []
@@ -908,7 +915,7 @@ def correspond(ctx):
         ctx.log("pairs round %d: %d pairs" % (rnd, len(pairs)))
 
     # 4. histories
-    histories(ctx, binary, r.fork(), 60 if quick else 1200, quick)
+    histories(ctx, binary, r.fork(), 120 if quick else 2500, quick)
     ctx.log("histories done")
 
     ctx.cov["rule"] = (
